@@ -114,18 +114,22 @@ MON_OPS = [("add", 8), ("sub", 6), ("neg", 3), ("abs", 2), ("mul_ratio_like", 5)
            ("div_food", 4), ("div_num", 2), ("index", 4), ("slice", 3), ("month", 5), ("first_month", 2), ("sum", 4),
            ("runsum", 4), ("min_all", 3), ("max_all", 3), ("min_elem", 4), ("min_elem_r", 2), ("round", 3), ("clip", 4),
            ("shift", 3), ("in_units", 4), ("helper", 3), ("set_units", 1), ("set_l2t", 1), ("set_l2e", 1),
-           ("set_e2l", 1), ("add_fixed", 2), ("min_fixed", 1), ("mul_like", 1), ("div_fixed", 1)]
+           ("set_e2l", 1), ("add_fixed", 2), ("min_fixed", 1), ("mul_like", 1), ("div_fixed", 1), ("one_off", 4)]
 SC_OPS = [("add", 8), ("sub", 6), ("neg", 3), ("abs", 2), ("mul_ratio_like", 5), ("rmul_ratio_like", 5),
           ("rmul_ratio_monthly", 3), ("mul_ratio_monthly", 2), ("mul_num", 3), ("rmul_num", 1), ("mul_arr", 4),
           ("div_food", 4), ("div_num", 2), ("index", 1), ("month", 1), ("sum", 1), ("min_all", 1), ("min_elem", 4),
           ("min_elem_r", 2), ("round", 1), ("clip", 4), ("shift", 1), ("in_units", 4), ("helper", 3), ("set_units", 1),
-          ("set_l2e", 1), ("set_e2l", 2), ("add_fixed", 2), ("min_fixed", 1), ("mul_like", 1), ("runsum", 1)]
+          ("set_l2e", 1), ("set_e2l", 2), ("add_fixed", 2), ("min_fixed", 1), ("mul_like", 1), ("runsum", 1),
+          ("one_off", 4)]
 
 
 def gen_step(rng, mon, n):
     """returns (step json, predicted monthly?, predicted length)"""
     o = wchoice(rng, MON_OPS if mon else SC_OPS)
     like = {"kind": "like"}
+    if o == "one_off":      # operand whose labels differ from the current ones in exactly one position: must be refused
+        return {"op": rng.choice(["add", "sub", "min_elem", "min_elem_r", "div_food"]),
+                "y": {"kind": "like_one_off", "pos": rng.randrange(3), "nonzero": True}}, mon, n
     if o in ("add", "sub"):
         return {"op": o, "y": like}, mon, n
     if o in ("neg", "abs", "clip", "runsum", "set_l2t", "set_l2e", "set_e2l"):
@@ -284,7 +288,9 @@ def gen_pred(rng):
         pc["kw"] = {"threshold": float(rng.choice([0.0, 0.5, 2.0, 40.0]))}
     if p in BINARY:
         r = rng.random()
-        if r < 0.8:
+        if r < 0.15:
+            pc["y"] = {"kind": "like_one_off", "pos": rng.randrange(3)}
+        elif r < 0.8:
             pc["y"] = {"kind": "like", "near": True}
         elif r < 0.9:
             pc["y"] = gen_ctor(rng, x["k"]["t"] in ("list", "arr"), False)
@@ -416,9 +422,16 @@ def coq_getters(fd, g):
 
 
 def round_safe(fd, d):
+    """np.round(x, d) computes rint(x * 10**d) / 10**d IN FLOATS; the model rounds the exact rational x * 10^d half-even.
+    The two agree unless the float product is inexact AND the exact product is within float error of a tie (k + 1/2):
+    such near-boundary cases are skipped (and counted)."""
     for v in all_vals(fd):
         fr = Fraction(v) * 10 ** d
-        if fr.numerator.bit_length() - (fr.denominator.bit_length() - 1) > 50 or fr.denominator > (1 << 40):
+        frac = fr - (fr.numerator // fr.denominator)
+        near_tie = abs(frac - Fraction(1, 2)) <= max(Fraction(1, 10 ** 9), abs(fr) / (1 << 48))
+        if near_tie and Fraction(float(v) * float(10 ** d)) != fr:
+            return False
+        if abs(fr) >= (1 << 52):
             return False
     return True
 
@@ -481,6 +494,7 @@ def seq_terms(seq, res, conv):
             break
         if st["op"] == "round" and not round_safe(cur, st["d"]):
             stats["truncated"] += 1
+            stats["near_rounding_boundary"] = 1
             break
         sc = scale_of(cur, y, rr)
         if st["op"] in ("mul_num", "rmul_num", "div_num"):
@@ -552,6 +566,7 @@ def evaluate(ctx, groups, results, name="c11"):
             tot["sequences"] += 1
             for k in ("steps", "accepted", "rejected", "truncated"):
                 tot[k] += stt[k]
+            tot["near_rounding_boundary_skipped"] = tot.get("near_rounding_boundary_skipped", 0) + stt.get("near_rounding_boundary", 0)
             for k, v in stt["ops"].items():
                 tot["ops"][k] = tot["ops"].get(k, 0) + v
             if "err" in res["start"]:
@@ -568,8 +583,15 @@ def evaluate(ctx, groups, results, name="c11"):
                     py_viol.append(("C11:operand-modified@" + st["op"], "an operand was modified by " + st["op"],
                                     {"flags": fl, "seq": seq}))
                 if r.get("alias") and not st["op"].startswith("set_"):
-                    py_viol.append(("C11:result-aliases-operand@" + st["op"],
-                                    "the result of " + st["op"] + " shares storage with an operand", {"flags": fl, "seq": seq}))
+                    # sharing storage is not modification: an evidence note, unless an in-place Food operation on the
+                    # result really changes the operand (tried by the runner)
+                    tot["alias_cases"] = tot.get("alias_cases", 0) + 1
+                    tot.setdefault("alias_first_example", {"op": st["op"], "flags": list(fl), "seq": seq,
+                                                           "in_place_operations_tried": r.get("alias_tried")})
+                    if r.get("alias_mutation"):
+                        py_viol.append(("C11:operand-modified@" + st["op"] + ":through-shared-storage",
+                                        f"the result of {st['op']} shares storage with an operand and {r['alias_mutation']} on "
+                                        "the result changed the operand", {"flags": fl, "seq": seq}))
             ctx.count(("seq", fl, json.dumps(seq, sort_keys=True)), nontrivial=stt["accepted"] > 0)
         for pc, r in zip(g["preds"], rg["preds"]):
             t = pred_term(pc, r, fl)
